@@ -162,6 +162,14 @@ func init() {
 		var r date.Date
 		err = r.UnmarshalBinary(b)
 		e["back"] = back(r, err)
+		// the caller owns the returned slice: overwriting it must not change what the next
+		// MarshalBinary of an equal date returns
+		for i := range b {
+			b[i] ^= 0xa5
+		}
+		b2, err2 := mkDate(e["a"]).MarshalBinary()
+		e["ok"] = err == nil && err2 == nil
+		e["out2"] = B(b2)
 		return e
 	}
 
